@@ -159,6 +159,12 @@ def procHandler {P : Type} (sg : Sig P) : Handler (PS P) where
   init := {}
   onOp := fun s toks =>
     match toks with
+    | "cfgraw" :: rest =>
+      match kvNat rest "sbs", kvNat rest "max", kvInt rest "timeout", kv rest "keys", kvNat rest "limit" with
+      | some sbs, some max, some timeout, some keys, some limit =>
+        let r : RawCfg := { sbs := sbs, max := max, timeout := timeout, keys := if keys = "-" then [] else keys.splitOn ",", limit := limit }
+        (s, [s!"obs valid={if validCfg r then 1 else 0}"])
+      | _, _, _, _, _ => (s, ["obs bad-op"])
     | "cfg" :: rest =>
       match kvNat rest "sbs", kvNat rest "max", kvNat rest "timeout", kvNat rest "nkeys", kvNat rest "limit" with
       | some sbs, some max, some timeout, some nkeys, some limit =>
